@@ -114,8 +114,11 @@ structure ClosedNeg (P : Sess → Prop) : Prop where
   first : ∀ s, P s → P { s with first := false }
   doRestart : ∀ s b, P s → P { s with doRestart := b }
   restart : ∀ s, P s → P (restartDec s)
-  installTls : ∀ s, P s → P { restartDec s with tls := true, hs := false, trace := .switch :: s.trace }
   stateOr : ∀ s m, P s → P { s with state := s.state ||| m }
+
+/-- closed under the installation of a TLS layer -/
+structure ClosedInstall (P : Sess → Prop) : Prop where
+  installTls : ∀ s, P s → P { restartDec s with tls := true, hs := false, trace := .switch :: s.trace }
 
 theorem negotiateOne_all {P : Sess → Prop} (h : ClosedIO P) (hn : ClosedNeg P) (c : Cached) (res : NegRes)
     (s : Sess) (hp : P s) : (negotiateOne c res s).All P := by
@@ -220,13 +223,14 @@ theorem step_all {P : Sess → Prop} (h : ClosedIO P) (hn : ClosedNeg P) (cfg : 
     | stop w s' => rw [hh] at hf; exact hf
     | ok out s3 => rw [hh] at hf; exact hn.doRestart s3 _ hf
 
-theorem install_all {P : Sess → Prop} (hn : ClosedNeg P) (rw : Rw) (s : Sess) (hp : P s) : P (install rw s) := by
+theorem install_all {P : Sess → Prop} (hn : ClosedNeg P) (hi : ClosedInstall P) (rw : Rw) (s : Sess) (hp : P s) :
+    P (install rw s) := by
   cases rw
   · exact hp
   · exact hn.restart s hp
-  · exact hn.installTls s hp
+  · exact hi.installTls s hp
 
-theorem loop_all {P : Sess → Prop} (h : ClosedIO P) (hn : ClosedNeg P) (cfg : Cfg) :
+theorem loop_all {P : Sess → Prop} (h : ClosedIO P) (hn : ClosedNeg P) (hi : ClosedInstall P) (cfg : Cfg) :
     ∀ fuel teeOn s, P s → P (loop cfg fuel teeOn s).1 := by
   intro fuel
   induction fuel with
@@ -246,7 +250,7 @@ theorem loop_all {P : Sess → Prop} (h : ClosedIO P) (hn : ClosedNeg P) (cfg : 
       | stop w s2 => rw [hh] at hs; exact hs
       | ok out s2 =>
         rw [hh] at hs
-        exact ih _ _ (hn.stateOr _ _ (install_all hn out.rw s2 hs))
+        exact ih _ _ (hn.stateOr _ _ (install_all hn hi out.rw s2 hs))
 
 /-! ### bit facts -/
 
@@ -325,8 +329,10 @@ theorem PA_neg : ClosedNeg PA where
   first := fun s ⟨a, b, c⟩ => ⟨a, b, c⟩
   doRestart := fun s _ ⟨a, b, c⟩ => ⟨a, b, c⟩
   restart := fun s ⟨a, b, c⟩ => ⟨a, b, c⟩
-  installTls := fun s ⟨_, b, c⟩ => ⟨rfl, b, (NCO_cons _ _).2 ⟨rfl, c⟩⟩
   stateOr := fun s m ⟨a, b, c⟩ => ⟨a, has_or _ _ _ b, c⟩
+
+theorem PA_install : ClosedInstall PA where
+  installTls := fun s ⟨_, b, c⟩ => ⟨rfl, b, (NCO_cons _ _).2 ⟨rfl, c⟩⟩
 
 /-! ### received in clear, never delivered inside the layer: `PB` -/
 
@@ -385,6 +391,9 @@ theorem PB_neg : ClosedNeg PB where
   first := fun s ⟨a, b⟩ => ⟨a, b⟩
   doRestart := fun s _ ⟨a, b⟩ => ⟨a, b⟩
   restart := fun s ⟨_, b⟩ => ⟨fun _ => rfl, b⟩
+  stateOr := fun s m ⟨a, b⟩ => ⟨a, b⟩
+
+theorem PB_install : ClosedInstall PB where
   installTls := by
     intro s ⟨_, b⟩
     refine ⟨fun _ => rfl, ?_⟩
@@ -393,7 +402,6 @@ theorem PB_neg : ClosedNeg PB where
     rcases he with rfl | he
     · rfl
     · exact b e he
-  stateOr := fun s m ⟨a, b⟩ => ⟨a, b⟩
 
 /-! ### the clear phase -/
 
@@ -675,7 +683,7 @@ theorem loop_PA (cfg : Cfg) : ∀ fuel teeOn s, PA s →
       | stop w s2 => rw [hh] at hs; exact ⟨hs, trivial⟩
       | ok out s2 =>
         rw [hh] at hs
-        exact ih _ _ (PA_neg.stateOr _ _ (install_all PA_neg out.rw s2 hs))
+        exact ih _ _ (PA_neg.stateOr _ _ (install_all PA_neg PA_install out.rw s2 hs))
 
 /-- loop-head invariant: secured, or still in clear text with no features list read yet -/
 def Head (st0 : Mask) (s : Sess) : Prop := PA s ∨ (ClearFirst st0 s ∧ has s.state Ready = false)
